@@ -6,6 +6,7 @@ CONSTANTS
   ExitLinked = TRUE
   StopAfterAnswer = TRUE
   ResumeAllEdges = TRUE
+  StartNodePerFlow = TRUE
   StepCap = 600
   CheckLoader = TRUE
 SPECIFICATION Spec
